@@ -319,6 +319,7 @@ mutual
   def Tree.queryIdxErr : Tree → List Key → Bool
     | _, [] => false
     | .leaf (.str _), k :: ks => strWalk 2 (k :: ks)
+    | .leaf (.tup ids), (.i n) :: _ => decide (n < -(ids.length : Int))
     | .leaf _, _ :: _ => false
     | .node m its, k :: ks => queryItemsIdxErr its (normKey m.kind its.length k) ks
   def queryItemsIdxErr : Items → Key → List Key → Bool
